@@ -82,6 +82,11 @@ var (
 	vTms  = [][]time.Time{{vTime[0], vTime[1]}, {vTime[1], vTime[2]}, {vTime[2], vTime[0]}}
 )
 
+var (
+	bigStr   = strings.Repeat("s", 60000)
+	bigBytes = bytes.Repeat([]byte("b"), 45000)
+)
+
 var methods = map[string]func(e *zerolog.Event) *zerolog.Event{
 	"Str":       func(e *zerolog.Event) *zerolog.Event { return e.Str("s", vStr[variant]) },
 	"Strs":      func(e *zerolog.Event) *zerolog.Event { return e.Strs("ss", vStrs[variant]) },
@@ -125,6 +130,8 @@ var methods = map[string]func(e *zerolog.Event) *zerolog.Event{
 	"Array":     func(e *zerolog.Event) *zerolog.Event { return e.Array("arr", zerolog.Arr().Int(1).Str("x")) },
 	"Object":    func(e *zerolog.Event) *zerolog.Event { return e.Object("obj", aObj) },
 	// empty / nil arguments of the same methods
+	"StrBig":      func(e *zerolog.Event) *zerolog.Event { return e.Str("big", bigStr) },
+	"BytesBig":    func(e *zerolog.Event) *zerolog.Event { return e.Bytes("bigb", bigBytes) },
 	"ArrayEmpty":  func(e *zerolog.Event) *zerolog.Event { return e.Array("arr0", zerolog.Arr()) },
 	"DictEmpty":   func(e *zerolog.Event) *zerolog.Event { return e.Dict("dict0", zerolog.Dict()) },
 	"StrsEmpty":   func(e *zerolog.Event) *zerolog.Event { return e.Strs("ss0", aStrs[:0]) },
